@@ -12,7 +12,7 @@ def supportedStrs : List String := ["all"]
 /-! the four list setters (states, povms, gates, mprocesses): for each, what `objdict` holds under the keys
 state, povm, gate, mprocess (0..3 = the experiment's own states / povms / gates / mprocesses list, 4 = the new value),
 and which own list is assigned on success -/
-def setterDicts : List (List Nat) := [[4, 1, 2, 3], [0, 4, 2, 3], [0, 1, 4, 3], [0, 1, 2, 3]]
+def setterDicts : List (List Nat) := [[4, 1, 2, 3], [0, 4, 2, 3], [0, 1, 4, 3], [0, 1, 2, 4]]
 def setterAssigns : List Nat := [0, 1, 2, 3]
 /-! per tomography class: positional kind tests `schedule[p][0] != k`, the position whose index must be 0, the optional
 leading length test `len(schedule) != n` (none = the class has no such test),
